@@ -267,8 +267,11 @@ EvLoad(ev) ==
                            /\ lb.live = o.b.live
                       ELSE Same(o.b, lb) /\ (o.res = "ok" => lb.wgt = o.b.wgt /\ lb.thr = o.b.thr)
         srcOK == Same(LBook(ev.src, Ids), book[ev.n]) /\ ToSet(ev.order) \subseteq 1..Len(vtx)
+        \* a stream the driver did not edit hands over exactly the source's live vertices, each once
+        \* (through the channel, or through the gossip server, the proto mapping and updateDag)
+        whole == (ev.kind = "" /\ ev.res = "ok") => (ToSet(ev.order) = book[ev.n].live /\ Len(ev.order) = Cardinality(book[ev.n].live))
     IN /\ Adopt(m, ev.st)
-       /\ obs' = ObsOf(ev, IsStrict(ev.a) => (conf /\ srcOK))
+       /\ obs' = [ObsOf(ev, IsStrict(ev.a) => (conf /\ srcOK /\ whole)) EXCEPT !.a = IF ev.kind = "" THEN "Load" ELSE "LoadEdited"]
        /\ UNCHANGED <<vtx, inflight, trxu>>
 
 \* two nodes that were offered the same vertices hold the same ledger and nothing is left parked
@@ -313,6 +316,11 @@ TSpec == TInit /\ [][TNext]_tvars
 
 ----------------------------------------------------------------------------
 (* verdicts *)
+
+\* C14 on recorded behaviours: a load from a stream the driver edited (a vertex removed, repeated or added) is judged
+\* by conformance to LoadOutcomes only - a stream that merely lacks a tip is a valid earlier ledger of the peer, which
+\* no node can tell from a complete one; every other successful load reproduces the source
+C14_T == [][(NotReset /\ obs'.a # "LoadEdited") => C14_Step]_tvars
 
 \* the recorded outcome of the last event is one the specification allows
 Conforms == obs.conf
